@@ -182,10 +182,22 @@ func VerifC12_owners() {
 	t := New()
 	t.AddHeaders("a", "b")
 	t.AddRowItems("1", "2")
+	t.AddSeparator()
+	t.AddRowItems("3")
+	t.AddSeparator()
 	row := t.AllRows()[0]
 	cell, _ := t.CellAt(CellLocation{Row: 1, Column: 1})
 	cell2, _ := t.CellAt(CellLocation{Row: 1, Column: 2})
-	owners := []PropertyOwner{t, t.Column(0), t.Column(1), t.Column(2), row, cell, cell2}
+	cell3, _ := t.CellAt(CellLocation{Row: 3, Column: 1})
+	// a second table built the same way: its parts are other owners still
+	u := New()
+	u.AddHeaders("a")
+	u.AddRowItems("1")
+	u.AddSeparator()
+	ucell, _ := u.CellAt(CellLocation{Row: 1, Column: 1})
+	owners := []PropertyOwner{t, t.Column(0), t.Column(1), t.Column(2), row, cell, cell2,
+		t.AllRows()[1], t.AllRows()[2], t.AllRows()[3], cell3, &t.Headers()[0],
+		u, u.Column(0), u.Column(1), u.AllRows()[0], u.AllRows()[1], ucell}
 	w := vfChoice("owner", len(owners))
 	vfAssert(owners[w].SetProperty(key, 7) == nil, "set-ok")
 	for i, o := range owners {
@@ -228,5 +240,56 @@ func VerifC12_owners() {
 	vfAssert(h1.GetProperty(key2) == 10, "old-handle-sees-later-sets")
 	if w == 2 {
 		vfAssert(t.Column(1).GetProperty(key) == 7, "earlier-property-survives-growth")
+	}
+}
+
+// VerifC12_copyseq: a by-value copy of a cell and the original are independent owners over any
+// sequence of sets, overwrites and clears on either side after the copy was taken (also with the
+// copy taken between an overwrite and the next set).
+func VerifC12_copyseq() {
+	keys := []interface{}{&vfKeyT{10}, &vfKeyT{11}, &vfKeyT{12}}
+	m := 3 + vfTier()
+	orig := NewCell("x")
+	shadow := [2][3]int{} // 0: unset
+	pre := vfChoice("before", 3) // sets on the original before the copy: none, k0, k0 then k0 again
+	if pre >= 1 {
+		orig.SetProperty(keys[0], 100)
+		shadow[0][0] = 100
+	}
+	if pre == 2 {
+		orig.SetProperty(keys[0], 101)
+		shadow[0][0] = 101
+	}
+	var cp *Cell
+	if vfChoice("how", 2) == 0 {
+		c := orig
+		cp = &c
+	} else {
+		row := NewRow()
+		row.Add(orig)
+		cp = &row.cells[0]
+	}
+	shadow[1] = shadow[0]
+	owners := []*Cell{&orig, cp}
+	for s := 0; s < m; s++ {
+		side := vfChoice(vfName("side", s), 2)
+		k := vfChoice(vfName("key", s), 3)
+		if vfChoice(vfName("clear", s), 2) == 1 {
+			owners[side].SetProperty(keys[k], nil)
+			shadow[side][k] = 0
+		} else {
+			owners[side].SetProperty(keys[k], 200+s)
+			shadow[side][k] = 200 + s
+		}
+		for o := 0; o < 2; o++ {
+			for i := 0; i < 3; i++ {
+				got := owners[o].GetProperty(keys[i])
+				if shadow[o][i] == 0 {
+					vfAssert(got == nil, "get-returns-last-set-per-owner")
+				} else {
+					vfAssert(got == interface{}(shadow[o][i]), "get-returns-last-set-per-owner")
+				}
+			}
+		}
 	}
 }
